@@ -40,6 +40,8 @@ try:
     manifest = json.load(open('/verif/MANIFEST.json'))
     fired = {}
     aenv = dict(env, PATH='/opt/veriftools/go1.26.8/bin:' + env['PATH'], GOTOOLCHAIN='local')
+    os.makedirs(f'/tmp/confirm/{name}-verif', exist_ok=True)
+    shutil.copy('/verif/known_findings.json', f'/tmp/confirm/{name}-verif/known_findings.json')
     for c in manifest['checks']:
         pid = c['property_id']
         rc, out = run(f'/verif/bin/atreelint -prop {pid} -tier quick -repo {wt} -verif /tmp/confirm/{name}-verif -no-evidence', e=aenv)
